@@ -412,7 +412,7 @@ func (e *c14env) batchLoop(f, outer *flow.Func, call *ast.CallExpr) (ast.Stmt, t
 			})
 			return found
 		}
-		for _, a := range call.Args {
+		for _, a := range c14flattenArgs(call.Args) {
 			if fromElem(a) {
 				return loops[i], sl
 			}
